@@ -294,7 +294,58 @@ func c05Parse(o *wout, shard, n int, thorough bool) {
 			o.states++
 		}
 	}
+	// mixed nesting: every wrapper sequence of length <= 3 over {GeometryCollection,
+	// Feature, Feature in the Circle convention, Feature with properties,
+	// FeatureCollection}, repeated to depth 12 and 40 (work that doubles per
+	// level exhausts the fuel long before depth 40)
+	mixed := mixedNestDocs()
+	for i, s := range mixed {
+		if i%n != shard {
+			continue
+		}
+		if i%16 == 0 {
+			o.beat()
+		}
+		o.states++
+		o.nt++
+		c05ParseOne(o, s)
+	}
 	o.w.WriteString("O parse\n")
+}
+
+func mixedNestDocs() []string {
+	type wr struct{ open, close string }
+	ws := []wr{
+		{`{"type":"GeometryCollection","geometries":[`, `]}`},
+		{`{"type":"Feature","geometry":`, `}`},
+		{`{"type":"Feature","properties":{"type":"Circle","radius":10,"radius_units":"m"},"geometry":`, `}`},
+		{`{"type":"Feature","id":1,"geometry":`, `,"properties":{"a":[1,2]}}`},
+		{`{"type":"FeatureCollection","features":[`, `]}`},
+	}
+	inner := `{"type":"Point","coordinates":[10,20]}`
+	var units [][]int
+	for a := range ws {
+		units = append(units, []int{a})
+		for b := range ws {
+			units = append(units, []int{a, b})
+			for c := range ws {
+				units = append(units, []int{a, b, c})
+			}
+		}
+	}
+	var out []string
+	for _, depth := range []int{12, 40} {
+		for _, u := range units {
+			var open, close []byte
+			for i := 0; i < depth; i++ {
+				w := ws[u[i%len(u)]]
+				open = append(open, w.open...)
+				close = append([]byte(w.close), close...)
+			}
+			out = append(out, string(open)+inner+string(close))
+		}
+	}
+	return out
 }
 
 func nestDoc(fam string, d int) string {
